@@ -83,6 +83,7 @@ func cmdExplore(args []string) {
 	nopanic := fs.Bool("nopanic", true, "panics are violations")
 	slog := fs.String("solverlog", "", "write worker 0's SMT session here")
 	maxpaths := fs.Int("maxpaths", 0, "path limit")
+	nofast := fs.Bool("nofast", false, "disable the byte-domain fast path")
 	nosumm := fs.Bool("nosumm", false, "disable pure-callee summarisation")
 	allev := fs.Bool("allevents", false, "one event per choice vector")
 	fs.Parse(args)
@@ -115,7 +116,7 @@ func cmdExplore(args []string) {
 		}
 	}
 	cfg := &interp.Config{Prog: prog, Pkg: pkg, Entry: rest[0], Args: iargs, Workers: *workers, Solver: *solver,
-		Paranoid: *paranoid, NoPanic: *nopanic, SolverLog: *slog, MaxPaths: *maxpaths, AllEvents: *allev, NoSummaries: *nosumm}
+		Paranoid: *paranoid, NoPanic: *nopanic, SolverLog: *slog, MaxPaths: *maxpaths, AllEvents: *allev, NoSummaries: *nosumm, NoFastPath: *nofast}
 	res := interp.Explore(cfg)
 	printResult(res)
 }
@@ -123,7 +124,7 @@ func cmdExplore(args []string) {
 func printResult(res *interp.Result) {
 	fmt.Printf("paths=%d (%v) decisions=%d forks=%d steps=%d checks=%d/%d wall=%.2fs\n", res.Stats.Paths, res.PathsByEnd,
 		res.Stats.Decisions, res.Stats.Forks, res.Stats.Steps, res.Stats.Checks, res.Stats.CheckQueries, res.Wall)
-	fmt.Printf("solver: %+v\n", res.Solver)
+	fmt.Printf("solver: %+v fast=%d\n", res.Solver, res.Stats.FastDecisions)
 	fmt.Printf("reach: %v\n", res.Reach)
 	if len(res.Stubs) > 0 {
 		fmt.Printf("stubs: %v\n", res.Stubs)
